@@ -694,7 +694,8 @@ func tokRawOK(prevStart, prevEnd, n int, baseOffset int64, num uint64) bool {
 
 //@ func (objectMember).Compare
 //@ property C13
-//@ assertions-only CompareUTF16's well-formedness precondition on names and member text is assumed
+//@ assertions-only CompareUTF16's well-formedness precondition on the member text is assumed
+//@ requires names-well-formed: jsonwire.WfUTF8(x.name) && jsonwire.WfUTF8(y.name)
 //@ ensures by-name: jsonwire.Cmp16(x.name, y.name) != 0 ==> result == jsonwire.Cmp16(x.name, y.name)
 
 //@ func mustReorderObjectsFromDecoder
